@@ -34,11 +34,12 @@ def run(chk, repo):
         ("C13-A9", "coordinates recorded before data is added; popped and promoted; tree maps '/' and every subtree entry", 5),
     ):
         chk.rule(rid, text, m)
-    a1(chk, repo)
-    a2_a5(chk, repo)
-    a6_a7(chk, repo)
-    a8(chk, repo)
-    a9(chk, repo)
+    chk.attempt(a1, chk, repo)
+    chk.attempt(a2_a5, chk, repo)
+    chk.attempt(a6_a7, chk, repo)
+    chk.attempt(groupname_injective, chk, repo, "C13-A7")
+    chk.attempt(a8, chk, repo)
+    chk.attempt(a9, chk, repo)
     chk.count("functions", 12)
 
 
@@ -153,6 +154,42 @@ def a6_a7(chk, repo):
     prefix = "f'scan{" in txt
     dec = "decode_filename" in txt
     chk.require(prefix and dec, "C13-A7", f"{si.relpath}:filename_to_groupname", "scan part is 'scan<n>' from decode_filename(path)", f"scan part / decoding changed: {txt[:100]}", key="groupname:scan-prefix")
+
+
+def groupname_injective(chk, repo, rule):
+    """filename_to_groupname evaluated (constant propagation) on every (polarisation, scan) combination the file-name
+    grammar admits: 5 x 11 cases, exhaustive; names must be pairwise distinct and carry both components"""
+    from ..shapes import Const, DictS, Fn, Interp, ShapeError, _Raise
+    si = repo.module("ceos_alos2.sar_image")
+    fg = si.func("filename_to_groupname")
+    where = f"{si.relpath}:filename_to_groupname"
+    names = {}
+    for pol in ("HH", "HV", "VH", "VV", None):
+        for scan in [None] + [str(d) for d in range(10)]:
+            I = Interp(repo)
+            info = DictS({"filetype": Const("IMG"), "polarization": Const(pol), "mission_name": Const("ALOS2"), "orbit_accumulation": Const("01234"),
+                          "scene_frame": Const("5678"), "observation_mode": Const("ScanSAR nominal 14MHz mode dual polarization"), "processing_level": Const("level 1.1")})
+            if scan is not None:
+                info.items["processing_method"] = Const("full aperture_method")
+                info.items["scan_number"] = Const(scan)
+            I.module_scope(si).vars["decode_filename"] = Fn("const", value=info, name="decode_filename")
+            f = I.resolve_global(si, "filename_to_groupname")
+            try:
+                out = I.call(f, [Const("IMG-xx")], {})
+            except (_Raise, ShapeError) as e:
+                raise AnalysisError(f"{where}: cannot evaluate the group name for polarisation={pol}, scan={scan}: {e}")
+            if not isinstance(out, Const) or not isinstance(out.v, str):
+                raise AnalysisError(f"{where}: group name for polarisation={pol}, scan={scan} is not a constant string: {out!r}")
+            names[(pol, scan)] = out.v
+    clashes = {}
+    for k, v in names.items():
+        clashes.setdefault(v, []).append(k)
+    dup = {v: ks for v, ks in clashes.items() if len(ks) > 1}
+    chk.require(not dup, rule, where, f"{len(names)} (polarisation, scan) combinations give {len(clashes)} distinct group names (e.g. {names[('HH', '3')]!r}, {names[('HV', None)]!r})",
+                f"different images get the same group name: {dict(list(dup.items())[:3])} - the later one silently replaces the earlier one under /imagery", key="groupname:injective",
+                sample={"HH/3": names[("HH", "3")], "HH/0": names[("HH", "0")], "HH/-": names[("HH", None)]})
+    fmt_ok = all((pol or "") in v and (f"scan{scan}" in v if scan is not None else "scan" not in v) for (pol, scan), v in names.items())
+    chk.require(fmt_ok, rule, where, "names are <polarisation>[_scan<n>]", f"names do not follow <polarisation>[_scan<n>]: {dict(list(names.items())[:6])}", key="groupname:format")
 
 
 def a8(chk, repo):
